@@ -460,7 +460,8 @@ pub fn gen_op(rng: &mut Rng, spec: &TreeSpec) -> Op {
         },
         67..=78 => Op::MkdirAll {
             path: mkdir_all_path(rng, spec),
-            mode: *rng.pick(&[0o755, 0o755, 0o755, 0o700, 0o700, 0o711, 0o711, 0o1777, 0o1777, 0o2755, 0o4755, 0o10755]),
+            // (modes without owner write/search included: every created component gets the requested mode, not only the last)
+            mode: *rng.pick(&[0o755, 0o755, 0o755, 0o700, 0o700, 0o711, 0o711, 0o1777, 0o1777, 0o2755, 0o4755, 0o10755, 0o555, 0o500, 0o000, 0o070, 0o1444, 0o311]),
         },
         79..=82 => Op::RemoveFile {
             path: lookup_path(rng, spec),
